@@ -179,7 +179,7 @@ ELEMS_OF_ARG0 = {
 }
 
 OPAQUE_FNS = {
-    'functions::gamma::gamma': 'gamma', 'functions::gamma::beta': 'beta', 'functions::gamma::digamma': 'digamma',
+    'functions::gamma::gamma': 'gamma', 'functions::gamma::ln_gamma': 'ln_gamma', 'functions::gamma::beta': 'beta', 'functions::gamma::digamma': 'digamma',
     'functions::statistical::erf': 'erf', 'functions::combinatorial::binom_coeff': 'binom_coeff',
     'functions::combinatorial::binom_coeff_alt': 'binom_coeff',
 }
